@@ -1,5 +1,12 @@
 (* C26 — the language and generator registries behave as case-insensitive maps. *)
-From TxV Require Import Core.Base Model.Registry Proofs.RegistryProofs.
+From TxV Require Import Core.Base Gen.SrcRegistry Model.Registry Proofs.RegistryProofs.
+
+(* [run] / [step] is the machine of registration.py instantiated with the facts that
+   tools/translate/registry_tr.py reads from the source on every run (Gen/SrcRegistry.v): every
+   key expression (registration, lookup, cache) carries .lower(), clearing resets the table to
+   None (so entry points are read again) and drops the cache, pattern-less languages are skipped
+   by languages_for_file; the order "lazy entry-point load, duplicate refusal, insertion" is
+   compared as text. *)
 
 (* For every operation sequence (any length), the registry state machine of
    registration.py (lazily loaded tables) answers exactly like the specification machine:
@@ -59,7 +66,7 @@ Print Assumptions C26_languages_for_file_exact.
 Theorem C26_language_for_file_exactly_one : forall fnm epl epg s f,
   (forall d, snd (sstep fnm epl epg s (LangForFile f)) = RLang d <-> langs_for_file fnm f (slangs s) = [d]) /\
   (length (langs_for_file fnm f (slangs s)) <> 1 -> snd (sstep fnm epl epg s (LangForFile f)) = RErr).
-Proof. intros. split; [intro d; apply lang_for_file_unique | apply lang_for_file_fails_otherwise]. Qed.
+Proof. exact lang_for_file_exactly_one. Qed.
 Print Assumptions C26_language_for_file_exactly_one.
 
 Theorem C26_cached_without_arguments : forall fnm epl epg s n m,
